@@ -840,7 +840,7 @@ func describe(ac *addCase, keep []bool) map[string]any {
 	}
 	return map[string]any{"profile": ac.Prof.Name, "height": ac.Height, "class": ac.Class, "limit": ac.Prof.limit(ac.Height),
 		"blacklist_active": ac.Prof.blacklistActive(ac.Height), "initial_txs": len(ac.Initial), "units(first/last 30)": us, "note": ac.Note,
-		"forks": map[string]int64{"ForkChainParamV1": ac.Prof.H1, "ForkChainParamV2": ac.Prof.H2, "ForkAccountBlacklist": ac.Prof.HBL},
+		"forks":       map[string]int64{"ForkChainParamV1": ac.Prof.H1, "ForkChainParamV2": ac.Prof.H2, "ForkAccountBlacklist": ac.Prof.HBL},
 		"maxTxNumber": []int64{ac.Prof.N0, ac.Prof.N1, ac.Prof.N2}}
 }
 
@@ -953,7 +953,8 @@ type expResult struct {
 	Shape, Msg                             string
 	Fed, Kept, GroupsDropped, GroupsKept   int
 	SinglesDropped, PartialExpGroups       int
-	DroppedLive                            int
+	DroppedLive, LeftExpired               int
+	LeftExpiredMsg                         string
 	ExpPositions                           []string
 	GroupFollowedByExpired, AdjacentGroups bool
 }
@@ -1008,13 +1009,17 @@ func runExp(ec *expCase, keep []bool) (res expResult) {
 				ui, len(u.Members), nexp, present, ec.Height, ec.BlockTime)
 		}
 		if nexp > 0 && present > 0 {
-			return fail("expire-left-expired-"+kind, "unit %d (%s of %d) with %d expired members (expire %v) is still in the block at height %d blocktime %d",
-				ui, kind, len(u.Members), nexp, expiresOf(u), ec.Height, ec.BlockTime)
+			// an expired unit that is kept WHOLE does not contradict "dropping removes whole groups": recorded, not deciding
+			res.LeftExpired++
+			if res.LeftExpiredMsg == "" {
+				res.LeftExpiredMsg = fmt.Sprintf("%s of %d with %d expired members (expire %v, group header %x) kept whole at height %d blocktime %d",
+					kind, len(u.Members), nexp, expiresOf(u), u.Members[0].Tx.Header, ec.Height, ec.BlockTime)
+			}
 		}
 		if nexp == 0 && present == 0 {
 			res.DroppedLive++
 		}
-		if nexp > 0 {
+		if nexp > 0 && present == 0 {
 			if len(u.Members) > 1 {
 				res.GroupsDropped++
 				if nexp < len(u.Members) {
@@ -1118,6 +1123,7 @@ func run(c *lib.Ctx) {
 	classCount := map[string]int{}
 	stopReasons := map[string]int{}
 	expPos := map[string]struct{}{}
+	var leftExpired []string
 
 	lib.Parallel(nAdd, workers, func(i int) {
 		if c.Skip(i) {
@@ -1208,6 +1214,14 @@ func run(c *lib.Ctx) {
 		c.Count("expire_groups_kept", int64(r.GroupsKept))
 		c.Count("expire_singles_dropped", int64(r.SinglesDropped))
 		c.Count("expire_live_units_dropped(non-deciding)", int64(r.DroppedLive))
+		c.Count("expire_expired_units_kept_whole(non-deciding)", int64(r.LeftExpired))
+		if r.LeftExpired > 0 {
+			mu.Lock()
+			if len(leftExpired) < 3 {
+				leftExpired = append(leftExpired, fmt.Sprintf("case %d: %s", i, r.LeftExpiredMsg))
+			}
+			mu.Unlock()
+		}
 		if r.GroupFollowedByExpired {
 			c.Count("expire_lists_group_followed_by_expired_unit", 1)
 		}
@@ -1221,6 +1235,11 @@ func run(c *lib.Ctx) {
 		c.Seen("expired_member_position/groupsize", s)
 	}
 	c.Extra("lists_per_class", classCount)
+	if len(leftExpired) > 0 {
+		c.Extra("side_observation_expired_group_kept_whole", map[string]any{"note": "outside the statement (no partial group results): Transaction.IsExpire on an expanded group member " +
+			"calls GetTxGroup, which decodes the 32-byte group header hash as a Transactions message; when the hash happens to parse as protobuf (~0.2% of hashes) " +
+			"the member is treated as an empty group and never expires, so CheckTxExpire keeps the whole expired group", "witnesses": leftExpired})
+	}
 	c.Extra("first_untaken_unit_reason", stopReasons)
 	var profs []map[string]any
 	for _, p := range profiles {
